@@ -66,6 +66,7 @@ static void checkSp(int base) {
   size_t active = 0;
   for (auto* b : t.getBlocks()) { bool on = t.getBestChain().contains(b); verif_check(b->hasFlags(BLOCK_ACTIVE) == on, base + 5); active += on; }
   verif_check(t.appliedBlockCount == active, base + 6);
+  verif_check(vbkIndexExact(t), base + 7);                            // the VBK payload index holds exactly the VTBs of the existing VBK blocks
 }
 extern "C" __attribute__((noinline)) void h_realvtb() {
   RealWorld& w = newRealWorld();
